@@ -126,6 +126,7 @@ def project_calls(log, prj, members_abs):
     """Shim log -> Call / Kill events (mutating calls and the lock prefix only). Deterministic, no guessing:
     open flags decide lockopen/create, copy calls on one target are summed up at its close."""
     evs = []
+    extra_worker = {}
     wbytes, wfail, wsrc = {}, {}, {}
     srclen = {}
     for e in log:
@@ -133,8 +134,13 @@ def project_calls(log, prj, members_abs):
         p1 = e.get("p1")
         p2 = e.get("p2")
         ok = e["ret"] >= 0
+        tid = e.get("tid")
+        if c == "openw" and not (e.get("a", 0) & O_CREAT) and p1:
+            extra_worker[tid] = bool(EXTRA_RE.search(p1))        # the lock prefix starts a command: whose file is this worker on now?
         if (p1 and EXTRA_RE.search(p1)) or (p2 and EXTRA_RE.search(p2)):
             continue                # the extra groups are not part of the modelled world (see in_tree)
+        if c == "mkdir" and extra_worker.get(tid):
+            continue                # target directories made while moving a file of an extra group
         if c == "KILL":
             # copies in flight when the process dies: what was written so far is what the target holds
             for n1 in list(wbytes):
